@@ -2,7 +2,10 @@
 
 package verifhook
 
-import "sort"
+import (
+	"sort"
+	"strconv"
+)
 
 const On = true
 
@@ -47,6 +50,7 @@ func EvP(site string, p any, detail string) {
 		f(site, p, detail)
 	}
 }
+func Itoa(i int) string { return strconv.Itoa(i) }
 func Poll(n int) []int {
 	if f := PollFn; f != nil {
 		return f(n)
